@@ -16,6 +16,8 @@ reversal of orientation.
 """
 from __future__ import annotations
 
+from vp import guard as _guard
+
 import os
 import signal
 import time
@@ -569,8 +571,8 @@ def _alarm(_s: int, _f: Any) -> None:
 
 
 def judge_guarded(case: dict[str, Any], exclude: tuple[str, ...] = (), hang_s: int = HANG_S) -> list[tuple[str, str]]:
-    signal.signal(signal.SIGALRM, _alarm)
-    signal.alarm(hang_s)
+    _guard.install(_alarm)
+    _guard.arm(hang_s)
     try:
         return judge(case, exclude)
     except _Hang:
